@@ -15,7 +15,8 @@ LEVEL_TEXT = (
     " iteration carries a subset of the fixpoint's facts."
 )
 NOT_DECIDED = "nothing beyond C06/C07: C20 adds no runtime quantity of its own."
-TRUSTED = ["syn parser", "finite-function evaluator", "reference tables of C06/C07"]
+ENGINE = "mirfacts+astq"
+TRUSTED = ["rustc MIR (engines/mirfacts) for C20.5", "syn parser", "finite-function evaluator", "reference tables of C06/C07"]
 
 CFG = "program_structure/src/control_flow_graph/cfg.rs"
 BB = "program_structure/src/control_flow_graph/basic_block.rs"
@@ -216,6 +217,12 @@ def rule_seeds(ctx, R="C20.2"):
 
 def run(ctx):
     rule_cut(ctx)
+    import os
+
+    if os.environ.get("VERIF_SKIP_MIR_RULES") != "1":
+        import c01
+
+        ctx.include("C20.5", "the cut itself cannot fail: the propagation loops contain no integer division by a possibly-zero value (shared with C01.14, MIR)", lambda c: c01.rule_division_asserts(c, "C01.14", only_file="control_flow_graph/cfg.rs"))
     rule_seeds(ctx)
     ctx.include("C20.3", "every value fact is derived from known operand facts (C06.1-C06.5 shared): pessimistic merge, operand discipline, versioned names only", c06.rule_operator_table, c06.rule_switch_phi, lambda c: opdisc.rule_values(c, "C06.3"), c06.rule_environment, c06.rule_literals)
     ctx.include("C20.4", "every degree fact is an upper bound derived from known operand facts (C07.1-C07.3 shared): transfer tables, operand discipline, seeds", c07.rule_tables, lambda c: opdisc.rule_degrees(c, "C07.2"), c07.rule_env)
